@@ -828,6 +828,8 @@ class Gen:
         r = self.rng.random()
         if depth >= 3:
             r = r * 0.62
+        if depth < 3 and self.chance(0.03) and not (self.in_func is not None and self.in_func["pure"]):
+            return self.seq_stmt(depth)
         if r < 0.22:
             return self.assign_stmt(depth)
         if r < 0.42:
@@ -847,6 +849,91 @@ class Gen:
         if r < 0.96 and self.array_names():
             return self.delete_stmt(depth)
         return self.io_stmt(depth)
+
+    # -- builtin calls in sequences on the same target (a container / variable that is refilled keeps no stale state)
+    def group(self, stmts):
+        lines = []
+        for st in stmts:
+            lines += st[0]
+        return (lines, sx("block", *[st[1] for st in stmts]), False)
+
+    def count_forin(self, a, acc):
+        body = [self.simple(incdec(False, True, var(acc)))]
+        bl, bsx = self.braced("for (k in " + a + ")", body)
+        return [self.simple(assign("set", var(acc), num(0))), (bl, sx("forin", "k", a, bsx), False)]
+
+    def split_source(self):
+        r = self.rng.random()
+        rec = self.record_ok() and self.phase in ("main", "end")
+        if r < 0.22:
+            return strlit("")
+        if r < 0.40 and rec:
+            return field(num(0))
+        if r < 0.50 and rec:
+            return field(binop("add", var("NF"), num(1)))       # a field beyond NF: the empty string
+        if r < 0.58 and rec:
+            return field(num(self.rng.randrange(1, 4)))
+        if r < 0.70:
+            return var(self.pick(self.scalar_names()))             # often still unset
+        return strlit(self.pick(["a b c", "d f", "x", " p  q ", "1 2 3 4", "a b"]))
+
+    def seq_stmt(self, depth):
+        r = self.rng.random()
+        ws = [v for v in self.writable_scalars() if v not in RESULTS and v not in ("k",)]
+        if r < 0.5 and self.array_names() and len(ws) >= 2:
+            # the same array refilled by several split() calls (later sources shorter or empty), inspected after each
+            self.features.add("seq-split")
+            a = self.pick(self.array_names())
+            n, acc = self.rng.sample(ws, 2)
+            out = []
+            for j in range(self.rng.randrange(2, 4)):
+                src = self.split_source() if j else (strlit(self.pick(["a b c", "1 2 3 4", "p q"])) if self.chance(0.5) else self.split_source())
+                if src.sx == sx("str", hx("")):
+                    self.features.add("seq-split-empty")
+                sep = None if self.chance(0.7) else strlit(self.pick([" ", ":", ","]))
+                out.append(self.simple(assign("set", var(n), split_(src, a, sep))))
+                k = self.rng.random()
+                if k < 0.5 or j:
+                    out += self.count_forin(a, acc)
+                    out.append(self.raw("print " + ", ".join([n, acc, isin(a, [num(1)]).txt, isin(a, [num(3)]).txt]),
+                                        sx("print", "-", var(n).sx, var(acc).sx, isin(a, [num(1)]).sx, isin(a, [num(3)]).sx)))
+                if k > 0.4:
+                    e1, e2 = cat(idx(a, [num(1)]), strlit("")), cat(idx(a, [num(2)]), strlit(""))
+                    out.append(self.raw("print " + e1.at(P_CAT) + ", " + e2.at(P_CAT), sx("print", "-", e1.sx, e2.sx)))
+            return self.group(out)
+        if r < 0.78 and ws:
+            # sub/gsub applied repeatedly to the same variable
+            self.features.add("seq-sub")
+            v = self.pick(ws)
+            n = self.pick([x for x in ws if x != v] or ws)
+            out = [self.simple(assign("set", var(v), strlit(self.pick(["aXbXcXd", "a-b-c", "aaa", "X", "abcabc", "", "a b a b"]))))]
+            for j in range(self.rng.randrange(2, 5)):
+                pat = self.pick(["X", "a", "-", "b", "ab", " ", "c"])
+                rep_ = strlit(self.pick(["", "-", "[&]", "X", "&&", "Y", "a"]))
+                call_ = subst(self.chance(0.5), pat, rep_, var(v))
+                if n != v and self.chance(0.6):
+                    out.append(self.simple(assign("set", var(n), call_)))
+                    out.append(self.raw("print " + n + ", " + v, sx("print", "-", var(n).sx, var(v).sx)))
+                else:
+                    out.append(self.simple(call_))
+            out.append(self.raw("print " + v, sx("print", "-", var(v).sx)))
+            return self.group(out)
+        names = [x for x in self.extra_names + self.input_names if x not in self.busy_files]
+        if names and ws and self.in_func is None:
+            # the same variable refilled by several getline calls, up to and beyond the end of the file
+            self.features.add("seq-getline-var")
+            self.features.add("getline")
+            f = strlit(self.pick(names))
+            v = self.pick(ws)
+            out = []
+            for j in range(self.rng.randrange(2, 5)):
+                g = getline(var(v), f)
+                out.append(self.simple(assign("set", var(RESULTS[1]), g)))
+                out.append(self.raw("print " + RESULTS[1] + ", " + v, sx("print", "-", var(RESULTS[1]).sx, var(v).sx)))
+                if self.chance(0.15):
+                    out.append(self.simple(close_(f)))
+            return self.group(out)
+        return self.assign_stmt(depth)
 
     def simple(self, e):
         return ([e.at(P_ASSIGN) + self.sep], sx("expr", e.sx), False)
@@ -1033,6 +1120,14 @@ class Gen:
             self.features.add("continue")
             return self.raw("continue", "continue", True)
         if self.in_func is not None:
+            if not self.in_func["pure"] and depth > 1 and self.chance(0.22):
+                # `exit` while a user function is active: the status must survive the unwinding of the call frames
+                # (impure functions are only called at statement level, so no half-printed print list is involved)
+                self.features.add("exit-in-function")
+                if self.chance(0.2):
+                    return self.raw("exit", sx("exit", "-"), True)
+                e = num(self.pick([1, 2, 3, 7, 42, 255])) if self.chance(0.75) else self.num_expr(depth + 2)
+                return self.raw("exit " + e.at(P_ASSIGN), sx("exit", e.sx), True)
             self.features.add("return")
             if self.chance(0.25):
                 return self.raw("return", sx("return", "-"), True)
@@ -1282,6 +1377,13 @@ class Gen:
         order = ["b"] * nb + ["m"] * nm + ["e"] * ne
         if self.chance(0.2):
             self.rng.shuffle(order)
+        die = None
+        if self.chance(0.14):
+            # a chain of user functions, 1 to 3 calls deep, whose innermost one executes `exit <expr>`
+            depth_ = self.rng.randrange(1, 4)
+            die = self.die_chain(depth_)
+            for f in die:
+                items.append(dict(kind="func", fn=f))
         first_begin = True
         if any(f.arr_params for f in self.funcs):
             # README.md "Incompatibility with AWK / Parameter passing": an array must exist before it is passed to a
@@ -1318,7 +1420,80 @@ class Gen:
                 else:
                     body = self.block(0, self.rng.randrange(1, 4))
                     items.append(dict(kind="rule", head=pt, pat=ps, stmts=body, sep=sep))
+        if die:
+            self.place_die_call(items, die)
         return items
+
+    def die_chain(self, depth_):
+        fns = []
+        for lvl in range(1, depth_ + 1):
+            name = "d%d" % lvl
+            if lvl == 1:
+                e = self.pick([var("c"), binop("add", var("c"), num(0)), binop("add", var("c"), num(1))])
+                body = [self.raw("exit " + e.at(P_ASSIGN), sx("exit", e.sx), True)]
+                if self.chance(0.3):
+                    body.insert(0, self.raw('print "d", c', sx("print", "-", strlit("d").sx, var("c").sx)))
+            else:
+                inner = call("d%d" % (lvl - 1), [var("c")])
+                if self.chance(0.5):
+                    body = [self.simple(inner), self.raw('print "unreached"', sx("print", "-", strlit("unreached").sx))]
+                else:
+                    body = [self.simple(assign("set", var("l0"), inner)), self.raw("return l0", sx("return", var("l0").sx), True)]
+            params = ["c", "l0"]
+            lines, bsx = self.render_block(body)
+            f = Fn(name, params, None, None, False, 1, [], set(), set())
+            f.recursive = False
+            f.die = True
+            f.body_txt = ["function " + name + "(" + ", ".join(params) + ") {"] + ["  " + l for l in lines] + ["}"]
+            f.body_sx = sx("func", name, sx("params", *params), bsx)
+            fns.append(f)
+        self.features.add("die-chain")
+        self.features.add("exit-in-function")
+        return fns
+
+    def place_die_call(self, items, die):
+        """call the outermost function of the chain from a BEGIN, main or END action, and (mostly) make sure an END
+        action follows that ends with a bare `exit` (status kept) or with `exit expr` (status replaced)"""
+        top = die[-1].name
+        cands = [it for it in items if it["kind"] in ("begin", "rule", "end") and it.get("stmts") is not None]
+        if not cands:
+            it = dict(kind="rule", head="", pat="always", stmts=[], sep="")
+            items.append(it)
+            cands = [it]
+        it = self.pick(cands)
+        code = num(self.pick([1, 2, 3, 7, 42, 255]))
+        c = call(top, [code])
+        saved = self.phase
+        self.phase = {"begin": "begin", "rule": "main", "end": "end"}[it["kind"]]
+        if it["kind"] == "rule" and self.chance(0.7):
+            cnd = cmp_("eq", var("NR"), num(self.rng.randrange(1, 4)))
+            tl, tsx = self.braced("if (" + cnd.txt + ")", [self.simple(c)])
+            st = (tl, sx("if", cnd.sx, tsx, sx("blk")), False)
+        elif self.chance(0.3):
+            cnd = not_(binop("add", var("u"), num(0)))
+            tl, tsx = self.braced("if (" + cnd.txt + ")", [self.simple(c)])
+            st = (tl, sx("if", cnd.sx, tsx, sx("blk")), False)
+        else:
+            st = self.simple(c)
+        self.phase = saved
+        body = list(it["stmts"])
+        pos = self.rng.randrange(0, len(body) + 1)
+        while pos > 0 and body[pos - 1][2]:
+            pos -= 1              # never behind a terminal statement
+        body.insert(pos, st)
+        it["stmts"] = body
+        self.features.add("die-from-" + it["kind"])
+        k = self.rng.random()
+        if k < 0.35:
+            tail = [self.raw('print "e", NR', sx("print", "-", strlit("e").sx, var("NR").sx)), self.raw("exit", sx("exit", "-"), True)]
+            self.features.add("die-then-bare-exit-in-end")
+        elif k < 0.65:
+            n2 = num(self.pick([0, 5, 9]))
+            tail = [self.raw('print "e", NR', sx("print", "-", strlit("e").sx, var("NR").sx)), self.raw("exit " + n2.txt, sx("exit", n2.sx), True)]
+            self.features.add("die-then-exit-expr-in-end")
+        else:
+            return
+        items.append(dict(kind="end", head="END", stmts=tail, sep=""))
 
 
 def render_items(items):
